@@ -69,6 +69,7 @@ pub fn gencfg(prop: &str, tier: &str, rng: &mut Rng) -> GenCfg {
             g.mix.insert = 8;
             g.mix.remove = 8;
             g.mix.compute_remove = 2;
+            g.mix.reserve = 1;
             g.shapes = vec![Shape::Tree, Shape::TreeShrunk, Shape::AlmostTree, Shape::TreeAtThreshold, Shape::BigTree, Shape::BigTree];
             g.hot_keys = (3, 10);
             g.ops = (3, 10);
@@ -206,13 +207,14 @@ fn c12_reader_ops(rng: &mut Rng, keys: &[u32]) -> Vec<Op> {
     let n = rng.range(1, 4);
     for _ in 0..n {
         let k = *rng.pick(keys);
-        ops.push(match rng.below(7) {
+        ops.push(match rng.below(8) {
             0 => Op::Get(k),
             1 => Op::GetKV(k),
             2 => Op::Contains(k),
             3 => Op::IterAll(IterKind::Iter),
             4 => Op::IterAll(*rng.pick(&[IterKind::Keys, IterKind::Values])),
             5 => Op::Len,
+            6 => Op::EqSelf,
             _ => Op::Get(k),
         });
     }
